@@ -191,9 +191,11 @@ def _norm(e):
 
 def show(n):
     """Readable rendering of a norm() tuple."""
-    if not isinstance(n, tuple):
+    if not isinstance(n, tuple) or not n:
         return str(n)
     t = n[0]
+    if not isinstance(t, str):
+        return "(%s)" % ", ".join(show(a) for a in n)
     if t == "c":
         return str(n[1])
     if t == "v":
